@@ -106,8 +106,10 @@ def mutations(p, rng, max_paren=12):
             ct = b.close.toks
             # rename the END name when there is one (last token is a name that equals the opener's)
             nm = b.open.cname if named else None
-            if b.cons in UNITS or b.cons == "type":
+            if b.cons in UNITS or b.cons in ("type", "interface"):
                 nm = ct[-1] if len(ct) >= 3 or (len(ct) == 2 and not gen.is_kw(ct[-1])) else None
+                if nm is not None and not nm.replace("_", "a").isalnum():
+                    nm = None    # `end interface operator(+)`: not a plain name
                 if nm is not None and gen.is_kw(nm):
                     nm = None
             if nm and ct[-1] == nm:
